@@ -27,14 +27,15 @@ Op(i) == [n |-> OpNames[i], action |-> "act",
           output |-> [msg |-> OpNames[i] \o "Out", headers |-> <<>>]]
 
 Wsdl(n) == [name |-> "svc.wsdl", kind |-> "wsdl", tns |-> "Usvc", xmlns |-> << <<"x", "Uext">> >>,
-            items |-> << [k |-> "import", ns |-> "Uext", loc |-> "ext.xsd"], HdrEl("AuthHeader"), HdrEl("TraceHeader") >>
+            items |-> << [k |-> "import", ns |-> "Uext", loc |-> "basetypes.xsd"], HdrEl("AuthHeader"), HdrEl("TraceHeader") >>
                       \o [i \in 1..n |-> ReqEl(i)] \o [i \in 1..n |-> RespEl(i)],
             wsdl |-> [messages |-> [i \in 1..n |-> InMsg(i)] \o [i \in 1..n |-> OutMsg(i)],
                       portType |-> "SvcPort", binding |-> "SvcBinding", service |-> "SvcService", address |-> "addr",
                       ops |-> [i \in 1..n |-> Op(i)]]]
-Ext == [name |-> "ext.xsd", kind |-> "xsd", tns |-> "Uext", xmlns |-> << <<"x", "Uext">> >>,
+\* (the name of the unrelated file is a suffix of the imported file's name: a look-up of files must be exact)
+Ext == [name |-> "basetypes.xsd", kind |-> "xsd", tns |-> "Uext", xmlns |-> << <<"x", "Uext">> >>,
         items |-> << [k |-> "complex", n |-> "ExtType", base |-> None, content |-> Seq1(<< El("extValue", Str) >>), attrs |-> <<>>] >>]
-Other == [name |-> "other.xsd", kind |-> "xsd", tns |-> "Uother", xmlns |-> <<>>,
+Other == [name |-> "types.xsd", kind |-> "xsd", tns |-> "Uother", xmlns |-> <<>>,
           items |-> << [k |-> "complex", n |-> "UnrelatedType", base |-> None, content |-> Seq1(<< El("u", Str) >>), attrs |-> <<>>] >>]
 
 \* a type whose members live in several other namespaces (refs to global elements of four imported schemas)
@@ -50,7 +51,7 @@ MultiNs == [name |-> "multi.xsd", kind |-> "xsd", tns |-> "Usvc",
 Docs == << [prop |-> "C12", drv |-> "c12", start |-> "multi.xsd", files |-> <<MultiNs, PartFile(1), PartFile(2), PartFile(3), PartFile(4)>>, label |-> "multi-namespace-members"],
             [prop |-> "C12", drv |-> "c12", start |-> "svc.wsdl", files |-> <<Wsdl(NOps), Ext, Other>>, label |-> "wsdl-ops"],
            [prop |-> "C12", drv |-> "c12", start |-> "svc.wsdl", files |-> <<Wsdl(2), Ext, Other>>, label |-> "wsdl-2ops"],
-           [prop |-> "C12", drv |-> "c12", start |-> "ext.xsd", files |-> <<Ext, Other>>, label |-> "xsd-only"] >>
+           [prop |-> "C12", drv |-> "c12", start |-> "basetypes.xsd", files |-> <<Ext, Other>>, label |-> "xsd-only"] >>
 
 Vocab == [names |-> [x |-> [xml |-> "x"]],
           uris |-> [Usvc |-> [uri |-> "http://zv.test/c12/service"], Uext |-> [uri |-> "http://zv.test/c12/ext"], Uother |-> [uri |-> "http://zv.test/c12/other"],
